@@ -60,6 +60,7 @@ ASSUMPTIONS = {
             "payloads range over the shape grammar G of DESIGN 5.C09 (Encrypt.v type v); IgnoreTypes, structpb.Struct payloads, struct payloads passed by value, "
             "named string types (json.Number, type T string) are not among the kinds the filter supports: it leaves them alone, also under a class tag; the model carries them as non-string values that must be preserved", "struct payloads passed by value are compared with the model (and snapshot-checked for C10) but are outside no_leak (their own strings cannot be set); []*string, arrays, strings held in interface{} fields / []interface{} elements, a payload behind a pointer to an interface, pointer tags that go through anything but maps are outside G (array, []interface{} and *interface{} payloads are run with the input-side oracles only; a payload that is a slice of slices is inside: the filter leaves the inner slices alone and the model says so); a Taggable map DIRECTLY as a value of an untagged map is swept as an untagged map (modelled; its tags are not honoured); Filter.IgnoreTypes is outside the model: where the rule applies only the input-side oracles are evaluated",
             "with every operation overridden to none Process returns the event untouched before looking at the payload kind, so a rotation payload is then forwarded (C10's clause wins over C09's)",
+            "F18 (repair: patches/encrypt/0009): on a tree where a nil element of a []interface{} held by a map still makes Process panic, the cases containing such an element are held back (the driver probes the tree once; counted in the evidence as held-back:nil-element-F18)",
             "a wrapper that answers (nil, nil) or an empty BlobInfo is no failing wrapper (the filter then writes the bare text 'encrypted:'): outside the statements; failing wrappers return every kind of error value (plain, wrapped sentinels, custom type, joined, typed nil, shared) and fail KeyId; a dead context makes the failing wrapper fail every call, the calls so answered are the model's failure oracle"],
     "C10": ["'the original is untouched' is not expressible in the heap-free model: it is tied dynamically on every case - deep snapshot of the input event before / after Process (KMutated), and again after the forwarded event has been rewritten from top to bottom, Formatted included (KAliased: the copy shares nothing with the original) - partial",
             "copystructure (deep copy that zeroes unexported fields) is modelled by Encrypt.copyz, validated by the correspondence",
@@ -81,7 +82,7 @@ MANIFEST = {
     "C09": {"text": "Tag.v (tag resolution on strings) + Encrypt.v (walker on payload trees with symbolic leaves, one addressability flag, failure = no event); theorems no_leak "
                     "(every exposed leaf of every forwarded payload sits at a position whose own tag resolves to public / no operation, every other position holds exactly what its tag, the defaults and the overrides dictate; all trees of G, all override tables, all wrapper-failure oracles), "
                     "secure_default, fails_closed (any failing AEAD/HMAC call, missing wrapper, malformed pointer, unsettable string payload => error and no event), rotation_payload_consumed; "
-                    "tie: exhaustive tag-spelling x override table, random G-trees depth <= 4 with unique canaries, histories of events on ONE filter with the same payload types recurring under changing override tables and rotated wrappers (each event judged under the table and key in force), wrapper ok/absent/failing at the n-th call, payloads with every scalar 6 - 13 container levels below the root, a node's own forwarded event fed back into the same and into another Filter, output classified by independent decryption / HMAC recomputation, JSON canary search",
+                    "tie: exhaustive tag-spelling x override table, random G-trees depth <= 4 with unique canaries, histories of events on ONE filter with the same payload types recurring under changing override tables and rotated wrappers (each event judged under the table and key in force), wrapper ok/absent/failing at the n-th call, payloads with every scalar 6 - 13 container levels below the root, a node's own forwarded event fed back into the same and into another Filter, heterogeneous []interface{} values of maps in every order of element kinds, output classified by independent decryption / HMAC recomputation, JSON canary search",
             "design_ref": "5.C09", "note": _NOTE, "technique": _TECH, "engine": "coq-encrypt"},
     "C10": {"category": "proof", "text": "theorems shape_preserved (forwarded payload = input up to leaf contents: constructors, lengths, keys, field names, every non-string value of exported fields), "
                     "public_kept (public / no-operation values unchanged), noop_identity (nil / zero payload, all operations none => the same event), unexported_zeroed_refuted (F10 witness); "
@@ -89,7 +90,7 @@ MANIFEST = {
             "design_ref": "5.C10", "note": _NOTE, "technique": _TECH, "engine": "coq-encrypt"},
     "C16": {"text": "Crypto.v (key state (wrapper, salt, info), Rotate / rotation payload / event operations, key_in_force with per-event derived wrapper and salt/info precedence, framing over Base64.v); theorems "
                     "b64url_roundtrip, decrypt_roundtrip (all byte strings), hmac_value, hmac_deterministic, rotation_takes_effect (all histories), value_atomic / value_atomic_plain / value_atomic_event (all interleavings of rotations, event starts and per-value steps: every value of every event kind is produced under ONE key generation), callback_schedule / callback_event_under_key_at_start (an event rotated part way through: an event with wrapper info stays under the key in force at its start, also when the filter had no salt / info of its own); "
-                    "tie: encrypth -crypto runs histories of Rotate / rotation payloads / events (salt/info on filter and event absent / empty / set, event id present/absent, empty and non-UTF-8 values; salt, info, event id, key id and plaintext over the length alphabet 0, 1, 63, 64, 65, 127, 128, 129, 1100 bytes with shared 64- and 128-byte prefixes), events that rotate the filter from their own Tags() callback (three payload shapes, with and without wrapper info, both rotation routes), rotation payloads whose accessors start events on the same filter, events under every FilterOperationOverrides table whose values name their own operation in struct tags / PointerTags (with and without wrapper info), Reopen / Type / directly assigned fields / nil and repeated Rotate options between the events, every context kind, tagged leaf structs at the end of every container path (map / slice / struct / pointer, up to six containers deep) with and without wrapper info, "
+                    "tie: encrypth -crypto runs histories of Rotate / rotation payloads / events (salt/info on filter and event absent / empty / set, event id present/absent, empty and non-UTF-8 values; salt, info, event id, key id and plaintext over the length alphabet 0, 1, 63, 64, 65, 127, 128, 129, 1100 bytes with shared 64- and 128-byte prefixes), events that rotate the filter from their own Tags() callback (three payload shapes, with and without wrapper info, both rotation routes), rotation payloads whose accessors start events on the same filter, events under every FilterOperationOverrides table whose values name their own operation in struct tags / PointerTags (with and without wrapper info), Reopen / Type / directly assigned fields / nil and repeated Rotate options between the events, every context kind, tagged leaf structs at the end of every container path (map / slice / struct / pointer, up to six containers deep) with and without wrapper info, pooled wrappers (extras/multi) of 1 - 3 keys with the encrypting key first / middle / last in key-id order, set at construction, by Rotate, by a rotation payload, by field assignment and in place (SetEncryptingWrapper), "
                     "an independent implementation reports which (key, salt, info) reproduces each output",
             "design_ref": "5.C16", "note": _NOTE, "technique": _TECH, "engine": "coq-encrypt"},
 }
